@@ -63,6 +63,8 @@ def check(ctx):
     def run_integrand(x):
         x.enter(fh, x.symbolic_args(fh), None, None, None)
         qe = [e for e in x.events if e.kind == "ext_call" and e.data["callee"] == "scipy.integrate.quad"]
+        if not qe:
+            return None  # a partition that answers without integrating: judged above (C08-b), no integrand here
         if len(qe) != 1:
             raise AnalysisError(f"{qh}: expected one quad call")
         f_, extra = qe[0].data["args"].get("func"), qe[0].data["args"].get("args")
@@ -70,7 +72,7 @@ def check(ctx):
         x.log("marker", qe[0].node, name="integrand evaluation")
         return x.call(f_, [Num(nf.sym(Q))] + more, {}, qe[0].node, None)
 
-    pc = only(itc.explore(run_integrand), qh + ":integrand", ctx, "C08-a")
+    pc = only([q_ for q_ in itc.explore(run_integrand) if any(e.kind == "marker" and e.data.get("name") == "integrand evaluation" for e in q_.events)], qh + ":integrand", ctx, "C08-a")
     own = ["temperature", Q, "temperature_pseudocritical", "pressure_pseudocritical"]
     z = nf.fn(ZQ, *[nf.sym(n) for n in own])
     mu_q = only(run(ctx, VQ, opaque={ZQ}, args={"pressure": Num(nf.sym(Q))}), VQ, ctx, "C08-a").value.nf
